@@ -74,6 +74,8 @@ def partition(
         if valueof is None:
             valueof = items.__getitem__
     else:  # items is a list
+        if isinstance(items, np.ndarray):
+            items = items.tolist()  # plain Python numbers: numpy scalars of a narrow or unsigned type overflow when the algorithms add them
         item_names = items
         if valueof is None:
             valueof = lambda item: item
